@@ -1,2 +1,109 @@
+(* C01 — Lookups return exactly the K nearest non-failed peers they learned.
+   Theorems only; proofs are `exact`/direct instances of lemmas of
+   Proofs/LookupProofs.v over the model Model/Lookup.v.
+
+   Quantification: every configuration [c] (K, alpha, beta, self, key, target,
+   IP-group limit, stop function), every scripted network [env] (any mix of dial
+   failures, request failures and arbitrary — lying — answers), every seed
+   list, and every event list [evs] (every arrival order of responses and
+   failures, every cancellation instant).  No hypothesis is needed. *)
 From Verif.Lib Require Import GoSem.
 From Verif.Model Require Import Lookup.
+From Verif.Proofs Require Import LookupBasics LookupProofs.
+From Coq Require Import Sorted.
+Local Open Scope N_scope.
+
+(* The lookup state machine never reaches one of its panics: the three
+   `panic` sites of updateState, the out-of-range index of SetState/GetState
+   on an unknown peer, and a negative slice bound in GetClosestNInStates. *)
+Theorem c01_no_protocol_panic :
+  forall c env seeds evs,
+    match run_search c env seeds evs with RPanic _ => False | _ => True end.
+Proof.
+  intros c env seeds evs. pose proof (run_search_inv c env seeds evs) as H.
+  destruct (run_search c env seeds evs); tauto.
+Qed.
+Print Assumptions c01_no_protocol_panic.
+
+(* The returned peers: at most K, distinct, never the local node, strictly
+   ascending in XOR distance; each one a seed or named in an answer that was
+   processed; none failed; and no learned, non-failed, filter-passing peer
+   outside the result is as near as any member (so the result is exactly the
+   K nearest of the learned non-failed set). *)
+Theorem c01_result :
+  forall c env seeds evs s,
+    run_search c env seeds evs = RDone s ->
+    let r := construct_result c s in
+    (length (r_peers r) <= cK c)%nat /\
+    NoDup (r_peers r) /\
+    ~ In (cSelf c) (r_peers r) /\
+    StronglySorted (lt_dist (cKey c)) (r_peers r) /\
+    (forall p, In p (r_peers r) ->
+       In p seeds \/ exists cause closer, env cause = OAnswer closer /\ In p (process_response c closer) /\
+                                          In cause (resp_queried (evlog s))) /\
+    (forall p, In p (r_peers r) -> ~ In p (resp_failed (evlog s))) /\
+    (forall p, In p (resp_heard (evlog s)) -> p <> cSelf c -> ~ In p (resp_failed (evlog s)) -> ~ In p (r_peers r) ->
+       length (r_peers r) = cK c /\ forall m, In m (r_peers r) -> lt_dist (cKey c) m p).
+Proof.
+  intros c env seeds evs s H. pose proof (run_search_inv c env seeds evs) as I. rewrite H in I.
+  exact (result_spec c env seeds s (proj1 I)).
+Qed.
+Print Assumptions c01_result.
+
+(* The published events agree with what was asked and answered: every response
+   event is the seed event, or reports exactly the sanitized content of the
+   answer the remote peer gave (queried = [cause]), or a failure of a peer that
+   did not answer (unreachable = [cause]); the request events are exactly the
+   requests spawned, each peer requested at most once, every response event
+   answers an earlier request and there is at most one per request; a terminate
+   event is published exactly once, last. *)
+Theorem c01_events_agree :
+  forall c env seeds evs s,
+    match run_search c env seeds evs with RDone s' | RPending s' | RBadEvent s' _ => s' = s | RPanic _ => False end ->
+    Forall (ev_ok c env seeds) (evlog s) /\
+    reqs s = req_peers (evlog s) /\
+    NoDup (req_peers (evlog s)) /\
+    NoDup (resp_queried (evlog s) ++ resp_failed (evlog s)) /\
+    (forall p, In p (resp_queried (evlog s) ++ resp_failed (evlog s)) -> In p (req_peers (evlog s))) /\
+    match term s with
+    | None => no_term (evlog s)
+    | Some r => exists l, evlog s = l ++ [EvTerm r] /\ no_term l
+    end.
+Proof.
+  intros c env seeds evs s H. pose proof (run_search_inv c env seeds evs) as I.
+  destruct (run_search c env seeds evs); try contradiction; subst; exact (events_spec c env seeds s (proj1 I)).
+Qed.
+Print Assumptions c01_events_agree.
+
+(* The lookup's bookkeeping between iterations: at most alpha requests in
+   flight, a peer is in flight iff it was requested and has not been answered. *)
+Theorem c01_in_flight :
+  forall c env seeds evs s,
+    match run_search c env seeds evs with RDone s' | RPending s' | RBadEvent s' _ => s' = s | RPanic _ => False end ->
+    (num_in_state Waiting (ps s) <= cAlpha c)%nat /\
+    forall p, state_of (ps s) p = Some Waiting <->
+              In p (req_peers (evlog s)) /\ ~ In p (resp_queried (evlog s)) /\ ~ In p (resp_failed (evlog s)).
+Proof.
+  intros c env seeds evs s H. pose proof (run_search_inv c env seeds evs) as I.
+  destruct (run_search c env seeds evs); try contradiction; subst;
+    (split; [exact (iv_wait _ _ _ _ (proj1 I))|exact (iv_waiting _ _ _ _ (proj1 I))]).
+Qed.
+Print Assumptions c01_in_flight.
+
+(* Non-vacuity: a concrete lookup with a lying peer, a failing peer and K = 2. *)
+Definition ex_cfg : config :=
+  {| cK := 2; cAlpha := 2; cBeta := 1; cSelf := 100; cKey := 0; cTarget := None; cLimit := 0; cStop := StopNever |}.
+Definition ex_env (p : id) : outcome :=
+  match p with
+  | 9 => OAnswer [{| rid := 5; rpass := true; rgroups := [] |}; {| rid := 100; rpass := true; rgroups := [] |};
+                  {| rid := 3; rpass := true; rgroups := [] |}; {| rid := 1; rpass := true; rgroups := [] |};
+                  {| rid := 2; rpass := true; rgroups := [] |}]          (* more than 2K entries, names the requester *)
+  | 5 => OAnswer [{| rid := 3; rpass := false; rgroups := [] |}]
+  | 3 => ODialFail
+  | 1 => OAnswer []
+  | _ => OReqFail
+  end.
+Example c01_nonvacuous :
+  exists s, run_search ex_cfg ex_env [9; 7] [Arrive 7; Arrive 9; Arrive 3; Arrive 1] = RDone s /\
+            r_peers (construct_result ex_cfg s) = [1; 5] /\ term s = Some Completed.
+Proof. eexists. split; [vm_compute; reflexivity|]. split; reflexivity. Qed.
